@@ -283,11 +283,18 @@ pub struct Stats {
     pub worst_case: Option<CaseWords>,
     pub first_nontrivial: Vec<CaseWords>,
     pub min_key_case: Option<(u64, CaseWords)>,
+    /// the few cases closest to the bound (seeds of the targeted search)
+    pub top: Vec<(f64, CaseWords)>,
+    pub climb_evals: u64,
+    pub climb_improvements: u64,
+    pub margin_before_climb: f64,
 }
+
+const TOP_N: usize = 6;
 
 impl Stats {
     fn new() -> Stats {
-        Stats { worst_margin: f64::NEG_INFINITY, ..Default::default() }
+        Stats { worst_margin: f64::NEG_INFINITY, margin_before_climb: f64::NEG_INFINITY, ..Default::default() }
     }
     fn record(&mut self, cw: &CaseWords, r: &CaseResult) {
         self.cases += 1;
@@ -323,6 +330,25 @@ impl Stats {
             self.worst_margin = r.margin;
             self.worst_case = Some(cw.clone());
         }
+        if r.margin.is_finite() && r.margin > -200.0 {
+            self.push_top(r.margin, cw);
+        }
+    }
+    fn push_top(&mut self, m: f64, cw: &CaseWords) {
+        if self.top.len() < TOP_N {
+            self.top.push((m, cw.clone()));
+        } else {
+            let (mut wi, mut wm) = (0, f64::INFINITY);
+            for (i, t) in self.top.iter().enumerate() {
+                if t.0 < wm {
+                    wm = t.0;
+                    wi = i;
+                }
+            }
+            if m > wm {
+                self.top[wi] = (m, cw.clone());
+            }
+        }
     }
     fn merge(&mut self, o: Stats) {
         self.cases += o.cases;
@@ -341,6 +367,11 @@ impl Stats {
         if o.worst_margin > self.worst_margin {
             self.worst_margin = o.worst_margin;
             self.worst_case = o.worst_case;
+        }
+        self.climb_evals += o.climb_evals;
+        self.climb_improvements += o.climb_improvements;
+        if o.margin_before_climb > self.margin_before_climb {
+            self.margin_before_climb = o.margin_before_climb;
         }
         for c in o.first_nontrivial {
             if self.first_nontrivial.len() < 2 {
@@ -426,6 +457,13 @@ fn run_generated_worker(
             _ => Ok(()),
         }
     });
+    let mut stats = stats.into_inner();
+    stats.margin_before_climb = stats.worst_margin;
+    if result.is_ok() && !stop.load(Ordering::Relaxed) && !stats.top.is_empty() {
+        if let Some(f) = targeted_search(sc, &mut stats, cases / 2, seed, known, stop) {
+            return (stats, Some(f));
+        }
+    }
     let failure = match result {
         Ok(()) => None,
         Err(TestError::Fail(reason, (head, items))) => Some(Failure {
@@ -439,7 +477,73 @@ fn run_generated_worker(
             detail: format!("proptest aborted: {}", reason.message()),
         }),
     };
-    (stats.into_inner(), failure)
+    (stats, failure)
+}
+
+/// Targeted search (the `target()` idea of Hypothesis, done by hand because proptest has none):
+/// starting from the cases of the random phase that came closest to the bound, mutate single
+/// choice words (small +-2^k steps move low mantissa bits, occasionally a fresh word or a word of
+/// another seed) and keep a mutant when log2(error/bound) grows.  Every evaluated mutant goes
+/// through the same evaluator, so a violation found here is an ordinary replayable case.  The
+/// mutation stream is a SplitMix sequence derived from the worker seed (deterministic).
+fn targeted_search(sc: &SubCheck, stats: &mut Stats, iters: u64, seed: u64, known: &[String], stop: &AtomicBool) -> Option<Failure> {
+    let mut state = seed ^ 0x7A26E7ED5EA2C4;
+    let mut next = move || {
+        state = state.wrapping_add(0x9E3779B97F4A7C15);
+        let mut z = state;
+        z = (z ^ (z >> 30)).wrapping_mul(0xBF58476D1CE4E5B9);
+        z = (z ^ (z >> 27)).wrapping_mul(0x94D049BB133111EB);
+        z ^ (z >> 31)
+    };
+    let mut pool = std::mem::take(&mut stats.top);
+    let n = pool.len();
+    for it in 0..iters {
+        if stop.load(Ordering::Relaxed) {
+            break;
+        }
+        let i = (it as usize) % n;
+        let mut cw = pool[i].1.clone();
+        let total = cw.head.len() + cw.items.len() * ITEM_W;
+        if total == 0 {
+            break;
+        }
+        let nmut = 1 + (next() % 2) as usize;
+        for _ in 0..nmut {
+            let j = (next() % total as u64) as usize;
+            let r = next();
+            let w: &mut u64 = if j < cw.head.len() { &mut cw.head[j] } else { let k = j - cw.head.len(); &mut cw.items[k / ITEM_W][k % ITEM_W] };
+            match r % 20 {
+                0 => *w = next(),
+                1 => {
+                    let o = &pool[(next() as usize) % n].1;
+                    if j < o.head.len() {
+                        *w = o.head[j];
+                    }
+                }
+                _ => {
+                    let d = 1u64 << (8 + (r >> 8) % 46);
+                    *w = if (r >> 5) & 1 == 0 { w.wrapping_add(d) } else { w.wrapping_sub(d) };
+                }
+            }
+        }
+        let r = eval_case(sc, &cw, known, false, false);
+        stats.climb_evals += 1;
+        if let Verdict::Violation(msg) = r.verdict {
+            stop.store(true, Ordering::Relaxed);
+            stats.worst_margin = stats.worst_margin.max(r.margin);
+            return Some(Failure { subcheck: sc.name, case: cw, detail: format!("{msg} [found by the targeted search phase]") });
+        }
+        if matches!(r.verdict, Verdict::Pass) && r.margin > pool[i].0 {
+            pool[i] = (r.margin, cw.clone());
+            stats.climb_improvements += 1;
+            if r.margin > stats.worst_margin {
+                stats.worst_margin = r.margin;
+                stats.worst_case = Some(cw);
+            }
+        }
+    }
+    stats.top = pool;
+    None
 }
 
 pub fn run_subcheck(prop_id: &str, sc: &SubCheck, tier_thorough: bool, seed: u64, threads: usize, scale: f64, known: &[String]) -> SubResult {
